@@ -22,6 +22,10 @@ struct PElem {
 
 enum { PE_UNBORN = 0, PE_LIVE = 1, PE_DEAD = 2 };
 
+static const char* pe_prop = "C05";     /* property prefix of ledger violation keys */
+static char pe_keybuf[96];
+static const char* pe_key(const char* what) { snprintf(pe_keybuf, sizeof pe_keybuf, "%s:ledger:%s", pe_prop, what); return pe_keybuf; }
+
 static struct {
   unsigned char* state;
   int64_t cap;
@@ -67,12 +71,12 @@ static void PElem_Del(var self) {
   struct PElem* p = self;
   if (p->token <= 0 || p->token >= pe.next) {
     pe.unborn_final++;
-    vh_violation("ledger:finalised-memory-that-holds-no-element", "destructor on token %" PRId64 " (id %" PRId64 ")", p->token, p->id);
+    vh_violation(pe_key("finalised-memory-that-holds-no-element"), "destructor on token %" PRId64 " (id %" PRId64 ")", p->token, p->id);
     return;
   }
   if (pe.state[p->token] != PE_LIVE) {
     pe.double_final++;
-    vh_violation("ledger:element-finalised-twice", "destructor on dead token %" PRId64 " (id %" PRId64 ")", p->token, p->id);
+    vh_violation(pe_key("element-finalised-twice"), "destructor on dead token %" PRId64 " (id %" PRId64 ")", p->token, p->id);
     return;
   }
   pe.state[p->token] = PE_DEAD;
@@ -88,7 +92,7 @@ static void PElem_Assign(var self, var obj) {
     pe_birth(p);                 /* first assignment into zeroed memory */
   } else if (!pe_is_live(p)) {
     pe.dead_read++;
-    vh_violation("ledger:assignment-into-dead-element", "assign onto token %" PRId64 " which is not live", p->token);
+    vh_violation(pe_key("assignment-into-dead-element"), "assign onto token %" PRId64 " which is not live", p->token);
   }
   p->id = o->id;
   p->h = o->h;
